@@ -125,11 +125,28 @@ def run_parsers(R, tonic, comp, enabled, tag=''):
     with R.guard('C05.R1', 'is_enabled'):
         b = tonic.body('EnabledCompressionEncodings::is_enabled')
         R.saw(b)
-        cb_, ct = b.call1(name='contains')
-        a0, a1 = b.origin(ct['args'][0]), b.origin(ct['args'][1])
-        R.check(mentions_field(a0, 'inner') and ct['dest']['l'] == 0, 'C05.R1', 'is_enabled:inner' + tag, site(b, cb_), 'contains over %s' % show(a0))
-        s1 = strip_refs(a1)
-        R.check(s1[0] == 'agg' and s1[1].get('variant') == 'Some' and 'arg2' in show(s1), 'C05.R1', 'is_enabled:some(encoding)' + tag, site(b, cb_), 'needle = %s' % show(s1))
+        cont = b.calls(name='contains')
+        anyc = b.calls(name='any')
+        if cont:
+            cb_, ct = cont[0]
+            a0, a1 = b.origin(ct['args'][0]), b.origin(ct['args'][1])
+            R.check(len(cont) == 1 and mentions_field(a0, 'inner') and ct['dest']['l'] == 0, 'C05.R1', 'is_enabled:inner' + tag, site(b, cb_), 'contains over %s' % show(a0))
+            s1 = strip_refs(a1)
+            R.check(s1[0] == 'agg' and s1[1].get('variant') == 'Some' and 'arg2' in show(s1), 'C05.R1', 'is_enabled:some(encoding)' + tag, site(b, cb_), 'needle = %s' % show(s1))
+        elif anyc:
+            cb_, ct = anyc[0]
+            a0 = b.origin(ct['args'][0])
+            R.check(len(anyc) == 1 and mentions_field(a0, 'inner') and ct['dest']['l'] == 0, 'C05.R1', 'is_enabled:inner' + tag, site(b, cb_), 'any() over %s' % show(a0))
+            clo = strip_refs(b.origin(ct['args'][1]))
+            okq = False
+            if clo[0] == 'agg' and 'def' in clo[1]:
+                qb = tonic.body(clo[1]['def'])
+                for eb_, et in qb.calls(name='eq'):
+                    sides = [strip_refs(qb.origin(a)) for a in et['args']]
+                    okq = any(x[0] == 'agg' and x[1].get('variant') == 'Some' and 'encoding' in show(x) for x in sides) and et['dest']['l'] == 0
+            R.check(okq, 'C05.R1', 'is_enabled:some(encoding)' + tag, site(b, cb_), 'any(|e| *e == Some(encoding)): %r' % okq)
+        else:
+            raise CheckError('UNRECOGNISED: is_enabled uses neither contains(&Some(encoding)) nor iter().any(|e| *e == Some(encoding))')
 
     # ---------------------------------------------------------------- R2 refusal path
     R.describe('C05.R2', 'refusal: Status::unimplemented + grpc-accept-encoding metadata built from the enabled set (or "identity")')
